@@ -48,6 +48,10 @@ def main():
         results = json.load(open(respath))
     for n in names:
         meta = json.load(open(os.path.join(sdir, n, "meta.json")))
+        if meta.get("neutralized_by"):
+            results[n] = {"property": meta["property"], "neutralized_by": meta["neutralized_by"]}
+            print(n, "skipped: no longer a behavioural change on the repaired tree")
+            continue
         props = ALL if allp else [meta["property"]]
         if sh(f"git -C /repo apply {sdir}/{n}/patch.diff").returncode != 0:
             print(n, "patch does not apply")
@@ -68,7 +72,7 @@ def main():
         finally:
             sh("git -C /repo checkout -- .")
     json.dump(results, open(respath, "w"), indent=1, sort_keys=True)
-    missed = [n for n in names if results[n].get("checks", {}).get(results[n].get("property"), {}).get("exit") != 1]
+    missed = [n for n in names if "neutralized_by" not in results[n] and results[n].get("checks", {}).get(results[n].get("property"), {}).get("exit") != 1]
     print("missed by own property's check:", missed)
     return 0
 
